@@ -62,10 +62,14 @@ struct Impl {
     /// Serialization plugin used for encoding/decoding keys and values.
     plugin: Arc<Plugin>,
 
-    /// Cache mapping stable type IDs to column family names.
+    /// Cache mapping stable type IDs and column kinds to column family names.
     ///
     /// This is used to avoid repeated lookups for the same column family.
-    column_families: DashMap<StableTypeID, String>,
+    /// The column kind is part of the key because the column family name
+    /// depends on it: a type used both as a wide column and as a key-of-set
+    /// column owns two column families and must never be handed the one that
+    /// belongs to the other kind.
+    column_families: DashMap<(StableTypeID, ColumnKind), String>,
 }
 
 impl std::fmt::Debug for Impl {
@@ -206,7 +210,7 @@ impl Impl {
         kind: ColumnKind,
     ) -> Arc<BoundColumnFamily<'_>> {
         // Check if we already have this column family cached
-        if let Some(cf_name) = self.column_families.get(&stable_type_id)
+        if let Some(cf_name) = self.column_families.get(&(stable_type_id, kind))
             && let Some(cf) = self.db.cf_handle(&cf_name)
         {
             return cf;
@@ -217,11 +221,11 @@ impl Impl {
 
         // Try to get existing CF first
         if let Some(cf) = self.db.cf_handle(&cf_name) {
-            self.column_families.insert(stable_type_id, cf_name);
+            self.column_families.insert((stable_type_id, kind), cf_name);
             return cf;
         }
 
-        match self.column_families.entry(stable_type_id) {
+        match self.column_families.entry((stable_type_id, kind)) {
             dashmap::Entry::Occupied(occupied_entry) => {
                 self.db.cf_handle(occupied_entry.get()).unwrap_or_else(|| {
                     self.db
